@@ -4,7 +4,7 @@
 d=$1; T=${2:-quick}
 SRC=$(cd "$(dirname "$0")/.." && pwd)
 P=${CHECKPROP:-$(echo $d | cut -c1-3)}
-W=/tmp/mx/$d-$P
+W=/tmp/mx/$d-$P-$$
 rm -rf $W; mkdir -p $W
 git clone -q ${VERIF_REPO:-/repo} $W/repo
 cp -r $SRC $W/verif
@@ -15,6 +15,6 @@ nv=$(grep -c "^VIOLATION" $W/log)
 case $d in *n) want=0;; *) want=1;; esac
 [ $rc -eq $want ] && verdict=as-expected || verdict=UNEXPECTED
 echo "$d check=$P rc=$rc (want $want) violations=$nv without_input=$kind $verdict"
-mkdir -p /tmp/mxlogs; cp $W/log /tmp/mxlogs/$d.log
+mkdir -p /tmp/mxlogs; cp $W/log /tmp/mxlogs/$d-$P-${VERIF_SEED:-0}.log
 [ $rc -ne $want ] && { mkdir -p /tmp/mxlogs/$d.replays; cp -r $W/verif/replays/. /tmp/mxlogs/$d.replays/ 2>/dev/null; }
 rm -rf $W
